@@ -96,6 +96,7 @@ class World(object):
             kw2 = dict(kw)
             if 'per_conn' in kw2:
                 kw2.update(kw2.pop('per_conn')(len(self.servers)))
+            conn.limit = kw2.pop('limit', None)
             srv = RefServer(conn, protoids.ids, self.rank, **kw2)
             self.servers.append(srv)
             return srv
@@ -120,3 +121,18 @@ def run(body, prefix=(), tracing=False, horizon=20000, expect=None,
         return body(W)
     return pysched.run_execution(driver, prefix, tracing, horizon, expect,
                                  visited, budget)
+
+
+def describe(packet):
+    """Stable text for a received packet.  Not repr(): repr() of a generic
+    Packet (unknown id) that has a context raises AttributeError in pyCraft
+    (class-level access to the 'definition' property) - observed, outside
+    every listed property, see DESIGN.md."""
+    fields = sorted((k, v) for k, v in vars(packet).items()
+                    if k != 'context' and not k.startswith('_vf'))
+    try:
+        pid = packet.id
+    except Exception:
+        pid = None
+    return '%s id=%r %s' % (type(packet).__name__, pid,
+                            ' '.join('%s=%r' % kv for kv in fields))
